@@ -54,8 +54,8 @@ CHECKS = {
         design="DESIGN.md section 5/C15",
     ),
     "C06": dict(
-        text="Theorems for every table, dispatcher form and converter: convert_units fails as a whole or returns the same columns in order, each identical (untargeted / same unit / skipped special column under 'base') or holding exactly the converter's output with the requested unit (base: the reported unit); special columns are refused a different unit; any failing column fails the call. Correspondence on generated tables incl. permuted / non-default / string indexes, failure injection and pint; oracle compares row for row with the converter's own output and checks the original is untouched. The bulk form normalized_table_generator (pdtable/utils.py) is modelled as a stream function with its own theorem and is run on a four-block stream in every case.",
-        note="Coq kernel + vm_compute; model Model/Convert.v; column values are opaque in the model, positional write-through of Column.values and data independence of the copy are checked by the oracle (and C05).",
+        text="Theorems for every table, dispatcher form and converter: convert_units fails as a whole or returns the same columns in order, each identical (untargeted / same unit / skipped special column under 'base') or holding exactly the converter's output with the requested unit (base: the reported unit); special columns are refused a different unit; any failing column fails the call; the call as the code performs it (a copy becomes a new object whose columns are converted in place) refines that specification on an explicit store and writes to no object that existed before. Correspondence (specification, store version and the original as observed after the call) on generated tables incl. permuted / non-default / string indexes, failure injection and pint; oracle compares row for row with the converter's own output and checks the original is untouched. The bulk form normalized_table_generator (pdtable/utils.py) is modelled as a stream function with its own theorem and is run on a four-block stream in every case.",
+        note="Coq kernel + vm_compute; models Model/Convert.v, Model/ConvertStore.v; column values are opaque in the model, positional write-through of Column.values and data independence of the copy are checked by the oracle (and C05).",
         design="DESIGN.md section 5/C06",
     ),
     "C05": dict(
@@ -99,8 +99,8 @@ CHECKS = {
         design="DESIGN.md section 5/C18",
     ),
     "C19": dict(
-        text="Theorem over the reader protocol machine (Fresh / Suspended k / Finished; events next, close, drop; any fault position; path-owned or caller stream): for EVERY event trace the caller's stream is never closed, nothing is opened before the first next, exactly one file is held while suspended, and everything opened is closed once the generator has finished in whatever way; writers: write_csv closes what it opened whichever table fails, write_excel creates nothing unless all tables serialised. PARTIAL by nature: that CPython finalises a dropped generator at once and that closing(workbook) releases the archive handle are runtime facts, observed through /proc/self/fd after every event (also while the exception is alive) and compared with the model's ledger.",
-        note="Coq kernel + vm_compute; model Model/Lifecycle.v; H_gen_finalise; Linux /proc observation; nested generators of load_files are observed, modelled as a single reader.",
+        text="Theorem over the reader protocol machine (Fresh / Suspended k / Finished; events next, close, drop; any fault position; path-owned or caller stream): for EVERY event trace the caller's stream is never closed, nothing is opened before the first next, exactly one file is held while suspended, and everything opened is closed once the generator has finished in whatever way; writers: write_csv closes what it opened whichever table fails, write_excel creates nothing unless all tables serialised; load_files over any list of files (default tracker) holds at most the one file of the reader it is suspended in and nothing once finished. PARTIAL by nature: that CPython finalises a dropped generator at once and that closing(workbook) releases the archive handle are runtime facts, observed through /proc/self/fd after every event (also while the exception is alive) and compared, together with what every event produced, with the model's ledger.",
+        note="Coq kernel + vm_compute; model Model/Lifecycle.v; H_gen_finalise; Linux /proc observation; load_files over several files is modelled as a sequence of readers in reading order (one-file loads as a single reader).",
         design="DESIGN.md section 5/C19",
     ),
 }
